@@ -400,6 +400,23 @@ impl VisitMut for Rw {
                     }), None));
                     self.log.push("R18 HashMap::retain closure converted and desugared to a loop over a key snapshot".into());
                 }
+                Stmt::Expr(Expr::MethodCall(m), Some(_)) if m.method == "for_each" && m.args.len() == 1
+                    && matches!(&*m.receiver, Expr::MethodCall(v) if v.method == "values_mut" && v.args.is_empty())
+                    && matches!(&m.args[0], Expr::Closure(c) if c.inputs.len() == 1) => {
+                    // R18b: `map.values_mut().for_each(|v| BODY)` -> a loop over a snapshot of the keys (each key once, arbitrary order)
+                    let map = if let Expr::MethodCall(v) = &*m.receiver { (*v.receiver).clone() } else { unreachable!() };
+                    let c = if let Expr::Closure(c) = &m.args[0] { c.clone() } else { unreachable!() };
+                    let pat = c.inputs[0].clone();
+                    let body = (*c.body).clone();
+                    keep.push(parse_quote!(let __keys = #map.keys_snapshot();));
+                    keep.push(parse_quote!(let mut __i: usize = 0;));
+                    keep.push(Stmt::Expr(parse_quote!(while __i < __keys.len() {
+                        let #pat = #map.get_mut(&__keys[__i]).unwrap();
+                        #body;
+                        __i += 1;
+                    }), None));
+                    self.log.push("R18b values_mut().for_each(closure) -> loop over a key snapshot".into());
+                }
                 Stmt::Expr(Expr::MethodCall(m), _) if m.method == "for_each" && m.args.len() == 1 && is_iter_mut_call(&m.receiver) => {
                     // R7b: `x.iter_mut().for_each(|p| s.m())` where every impl of `m` in the repo has an empty body is a no-op
                     let ok = if let Expr::Closure(c) = &m.args[0] {
